@@ -507,7 +507,10 @@ fn cmd_drec(s: &str, dt: &str, dq: &str, k: &str) -> String {
                     };
                     format!("ok {} {}", show_drec(&d), p)
                 }
-                Err(_) => "err".into(),
+                Err(e) => {
+                    probe(&e);
+                    "err".into()
+                }
             })
         }
         _ => "badcase".into(),
@@ -518,7 +521,29 @@ fn cmd_pline(a: &str) -> String {
     // the parser only ever sees `&str`; a case that is not UTF-8 is not a case for this command
     match parse_xs(a) {
         None => "badcase".into(),
-        Some(l) => guard(|| match l.parse::<Line>() {
+        Some(l) => guard(|| {
+            // C14: the record parsers called directly must agree with the line parser on every text
+            let text = l.clone();
+            let direct_h = text.parse::<HeaderRecord>();
+            let direct_d = text.parse::<DataRecord>();
+            if let Err(e) = &direct_h {
+                probe(e);
+            }
+            if let Err(e) = &direct_d {
+                probe(e);
+            }
+            let parsed = text.parse::<Line>();
+            let agree = match &parsed {
+                Ok(Line::Empty) => true,
+                Ok(Line::Header(h)) => direct_h.as_ref().ok() == Some(h),
+                Ok(Line::AlignmentData(d)) => direct_d.as_ref().ok() == Some(d),
+                Err(line::Error::InvalidHeaderRecord { .. }) => direct_h.is_err(),
+                Err(line::Error::InvalidAlignmentDataRecord { .. }) => direct_d.is_err(),
+            };
+            if !agree {
+                return format!("NOTEQUAL-direct {:?} VS {:?} / {:?}", parsed, direct_h, direct_d);
+            }
+            match parsed {
             Ok(l) => {
                 // C13: the printed text must parse back to a record that is equal in the crate's own sense (`==`),
                 // also after the record has been used (interval() on its sequences)
@@ -536,6 +561,7 @@ fn cmd_pline(a: &str) -> String {
                 show_line(&l)
             }
             Err(e) => show_lineerr(&e),
+            }
         }),
     }
 }
@@ -651,6 +677,21 @@ fn cmd_raw(a: &str) -> String {
 fn build_section(hdr: &str, recs: &str) -> Result<Section, String> {
     let hl = parse_xs(hdr).ok_or("badcase")?;
     let h = hl.parse::<HeaderRecord>().map_err(|_| "badcase".to_string())?;
+    // C03/C05: a section cannot be made without a header, without data, or with two headers
+    let structural = catch_unwind(AssertUnwindSafe(|| {
+        let e1 = SectionBuilder::default().try_build();
+        let e2 = SectionBuilder::default().header(h.clone()).and_then(|b| b.try_build());
+        let e3 = SectionBuilder::default().header(h.clone()).and_then(|b| b.header(h.clone()));
+        for e in [e1.as_ref().err(), e2.as_ref().err(), e3.as_ref().map(|_| ()).err()].into_iter().flatten() {
+            probe(e);
+        }
+        e1.is_err() && e2.is_err() && e3.is_err()
+    }));
+    match structural {
+        Ok(true) => {}
+        Ok(false) => return Err("NOTEQUAL-builder".into()),
+        Err(_) => return Err("panic".into()),
+    }
     let mut b = SectionBuilder::default().header(h).map_err(|_| "badcase".to_string())?;
     for t in recs.split(',') {
         let p: Vec<&str> = t.split('/').collect();
